@@ -187,7 +187,12 @@ pub(crate) fn inline_def_body(
     params: &ParametersCompiled<IrSpanned<ExprCompiled>>,
     body: &StmtsCompiled,
 ) -> Option<InlineDefBody> {
-    if params.params.len() == 1 && params.params[0].accepts_positional() {
+    // `Normal` is also the kind of a named-only parameter (`def f(*, x)`): such a function
+    // must not be replaced by `type_is` applied to a positional argument.
+    if params.params.len() == 1
+        && params.params[0].accepts_positional()
+        && params.indices.num_positional == 1
+    {
         if let Some(t) = is_return_type_is(body) {
             return Some(InlineDefBody::ReturnTypeIs(t));
         }
